@@ -32,27 +32,36 @@ Definition dense_forward_domain (in_dim last_axis : nat) : bool := last_axis =? 
 Definition dense_forward_accepts (in_dim last_axis : nat) : bool := last_axis =? in_dim.
 
 (* ---------- LogicConv2d / LogicConv3d (per-axis lists) *)
-Record conv_cfg := { cc_dims : list nat; cc_rf : list nat; cc_channels : nat; cc_depth : nat; cc_stride : nat; cc_pad : nat;
-                     cc_connections : string; cc_param : string; cc_weight_init : string; cc_sampling : string }.
+Record conv_cfg := { cc_dims : list nat; cc_rf : list nat; cc_channels : nat; cc_depth : nat; cc_stride : nat; cc_pad : Z;
+                     cc_connections : string; cc_param : string; cc_weight_init : string; cc_sampling : string;
+                     cc_impl : string (* "" = None *) }.
 
 Definition positions (c : conv_cfg) : nat := fold_right Nat.mul 1 (cc_rf c) * cc_channels c.
+Definition pad_nat (c : conv_cfg) : nat := Z.to_nat (cc_pad c).
+(* the non-default scheme has two names: 'random-unique' (the layer's own) and 'unique' (LogicDense's and the docstring's) *)
+Definition is_unique (s : string) : bool := mem_str s ["random-unique"; "unique"].
 
 Definition conv_ctor_domain (c : conv_cfg) : bool :=
   forallb (fun r => cc_stride c <=? r) (cc_rf c)
-  && forallb (fun '(n, r) => r <=? n + 2 * cc_pad c) (combine (cc_dims c) (cc_rf c))
-  && mem_str (cc_connections c) ["random"; "random-unique"]
+  && (0 <=? cc_pad c)%Z
+  && forallb (fun '(n, r) => r <=? n + 2 * pad_nat c) (combine (cc_dims c) (cc_rf c))
+  && (String.eqb (cc_connections c) "random" || is_unique (cc_connections c))
   && mem_str (cc_param c) ["raw"; "walsh"] && mem_str (cc_weight_init c) ["residual"; "random"]
   && mem_str (cc_sampling c) ["soft"; "hard"; "gumbel_soft"; "gumbel_hard"]
-  && (negb (String.eqb (cc_connections c) "random-unique") || (2 ^ cc_depth c <=? positions c * (positions c - 1) / 2)).
+  && mem_str (cc_impl c) [""; "python"; "cuda"]
+  && (negb (is_unique (cc_connections c)) || (2 ^ cc_depth c <=? positions c * (positions c - 1) / 2)).
 
+(* guards in source order *)
 Definition conv_ctor_accepts (c : conv_cfg) : bool :=
   mem_str (cc_param c) ["raw"; "walsh"] && mem_str (cc_weight_init c) ["residual"; "random"]
   && mem_str (cc_sampling c) ["soft"; "hard"; "gumbel_soft"; "gumbel_hard"]
+  && mem_str (cc_impl c) [""; "python"; "cuda"]
+  && negb (cc_pad c <? 0)%Z
   && forallb (fun r => cc_stride c <=? r) (cc_rf c)
   && (if String.eqb (cc_connections c) "random" then true
-      else if String.eqb (cc_connections c) "random-unique" then 2 ^ cc_depth c <=? positions c * (positions c - 1) / 2
+      else if is_unique (cc_connections c) then 2 ^ cc_depth c <=? positions c * (positions c - 1) / 2
       else false)
-  && forallb (fun '(n, r) => r <=? n + 2 * cc_pad c) (combine (cc_dims c) (cc_rf c)).
+  && forallb (fun '(n, r) => r <=? n + 2 * pad_nat c) (combine (cc_dims c) (cc_rf c)).
 
 (* forward: the input must be (batch, channels, dims...) exactly *)
 Definition conv_forward_domain (channels : nat) (dims : list nat) (shape : list nat) : bool :=
@@ -62,9 +71,40 @@ Definition conv_forward_domain (channels : nat) (dims : list nat) (shape : list 
   end.
 Definition conv_forward_accepts := conv_forward_domain.
 
-(* ---------- GroupSum *)
+(* ---------- GroupSum: a positive number of groups (constructor) that divides the width (forward) *)
+Definition groupsum_ctor_domain (k : Z) : bool := (0 <? k)%Z.
+Definition groupsum_ctor_accepts (k : Z) : bool := negb (negb (0 <? k)%Z).      (* if not k > 0: raise *)
 Definition groupsum_domain (k n : nat) : bool := n mod k =? 0.
 Definition groupsum_accepts (k n : nat) : bool := n mod k =? 0.
+
+(* ---------- OrPooling handed to the compiler: the domain of max pooling *)
+Definition pool_domain (k s p : Z) (dims : list Z) : bool :=
+  ((0 <? k) && (0 <? s) && (0 <=? p) && (2 * p <=? k) && forallb (fun n => k <=? n + 2 * p) dims)%Z.
+Definition pool_compile_accepts (k s p : Z) (dims : list Z) : bool :=
+  ((0 <? k) && (0 <? s) && ((0 <=? 2 * p) && (2 * p <=? k)) && forallb (fun n => n + 2 * p >=? k) dims)%Z.
+
+(* ---------- CompiledLogicNet.forward: the sample layout.  declared = input_shape, shape = x.shape,
+   leading_flatten: the model starts with Flatten (or is a loaded handle, whose layers are unknown) *)
+Definition prodn (l : list nat) : nat := fold_right Nat.mul 1 l.
+Definition list_eqb_nat (a b : list nat) : bool := (length a =? length b) && forallb (fun '(x, y) => x =? y) (combine a b).
+Definition compiled_forward_domain (declared : list nat) (leading_flatten : bool) (shape : list nat) : bool :=
+  match shape with
+  | _ :: sample =>
+      match declared with
+      | [_] => if leading_flatten then (1 <=? length sample) && (prodn sample =? prodn declared) else list_eqb_nat sample declared
+      | _ => list_eqb_nat sample declared || list_eqb_nat sample [prodn declared]
+      end
+  | [] => false
+  end.
+Definition compiled_forward_accepts (declared : list nat) (leading_flatten : bool) (shape : list nat) : bool :=
+  match shape with
+  | _ :: sample =>
+      let ok := (2 <=? length shape) && (prodn sample =? prodn declared) in
+      if ok && (1 <? length declared) then (length shape =? 2) || list_eqb_nat sample declared
+      else if ok && negb leading_flatten then length shape =? 2
+      else ok
+  | [] => false
+  end.
 
 (* ---------- CompiledLogicNet constructor *)
 Definition compiler_domain (num_bits : nat) (cc : string) (n_logic_layers : nat) : bool :=
